@@ -281,7 +281,7 @@ def ole_bytes(entries):
         start, size = (streams[i][0], max(len(data), 4096)) if typ == 2 else ((EOC, 0))
         dirbytes += (nm.ljust(64, b"\0") + struct.pack("<HBB", len(nm), typ, 1) + struct.pack("<III", NOSTREAM, sib.get(i, NOSTREAM), kids[0] if kids else NOSTREAM)
                      + b"\0" * 16 + struct.pack("<I", 0) + b"\0" * 16 + struct.pack("<II", start, size) + b"\0" * 4)
-    dirbytes += (b"\0" * 64 + struct.pack("<HBB", 0, 0, 0) + struct.pack("<III", NOSTREAM, NOSTREAM, NOSTREAM) + b"\0" * 44) * (n_dir * 4 - len(flat))
+    dirbytes += (b"\0" * 64 + struct.pack("<HBB", 0, 0, 0) + struct.pack("<III", NOSTREAM, NOSTREAM, NOSTREAM) + b"\0" * 48) * (n_dir * 4 - len(flat))
     header = (b"\xd0\xcf\x11\xe0\xa1\xb1\x1a\xe1" + b"\0" * 16 + struct.pack("<HHHHH", 0x3E, 3, 0xFFFE, 9, 6) + b"\0" * 6
               + struct.pack("<IIIIIIIII", 0, 1, 1, 0, 4096, EOC, 0, EOC, 0) + struct.pack("<I", 0) + struct.pack("<I", FREE) * 108)
     body = struct.pack("<128I", *fat) + dirbytes + b"".join(streams[i][2] for i in sorted(streams))
@@ -300,6 +300,10 @@ def ole_marker_variants():
             for spelled in (mk, mk.upper(), mk.lower()):
                 out.append((f"stream {spelled!r} (.{ext})", ext, ole_bytes(filler + [(spelled, b"x" * 40)]), "encrypted"))
             out.append((f"storage {mk!r} (.{ext})", ext, ole_bytes(filler + [(mk, [("Version", b"v" * 8)])]), "encrypted"))
+            if ext == "ppt":     # a binary presentation with its usual streams around the marker (CurrentUserAtom with the plain header token)
+                cu = struct.pack("<HHII", 0, 0x0FF6, 0x20, 0x14) + struct.pack("<I", 0xE391C05F) + b"\0" * 16
+                usual = [("Current User", cu), ("PowerPoint Document", b"\0" * 64), ("\x05SummaryInformation", b"\0" * 48)]
+                out.append((f"stream {mk!r} next to Current User / PowerPoint Document (.ppt)", ext, ole_bytes(usual + [(mk, b"x" * 40)]), "encrypted"))
     for stream, spelled in (("Workbook", "Workbook"), ("Workbook", "WORKBOOK"), ("Book", "Book"), ("Book", "book")):
         for enc in (False, True):
             recs = [(0x0809, b"\0" * 16)] + ([(0x0086, b""), (0x002F, b"\0" * 6)] if enc else [(0x0042, b"\xe4\x04")]) + [(0x000A, b"")]
